@@ -240,7 +240,7 @@ func (x *Exec) builtinExtern(st *State, key string, c *ssa.CallCommon, a []*Val,
 		}
 	case "time.(Time).UnixNano":
 		use()
-		return intVal(tArith("-", T(0), x.timeEpoch())), true, nil
+		return intVal(x.unixNanoTerm(T(0))), true, nil
 	case "time.(Time).Unix":
 		use()
 		return intVal(mk("div", SInt, tArith("-", T(0), x.timeEpoch()), intLit(1000000000))), true, nil
@@ -856,4 +856,13 @@ func isStdBase64(c *ssa.CallCommon) bool {
 	}
 	g, ok := u.X.(*ssa.Global)
 	return ok && g.Name() == "StdEncoding" && g.Pkg != nil && g.Pkg.Pkg.Path() == "encoding/base64"
+}
+
+// unixNanoTerm: nanoseconds since the Unix epoch as an int64. Exact inside the int64 range (years 1678..2262); outside it
+// the Go result is undefined ("overflows"), modelled as an unknown but deterministic function of the instant, so that a
+// round trip through UnixNano is the identity only for representable instants.
+func (x *Exec) unixNanoTerm(t *Term) *Term {
+	d := tArith("-", t, x.timeEpoch())
+	inr := tAnd(tCmp(">=", d, intLitStr("-9223372036854775808")), tCmp("<=", d, intLitStr("9223372036854775807")))
+	return tIte(inr, d, x.ufApp("unixNanoWrapped", SInt, t))
 }
